@@ -602,3 +602,175 @@ impl SimProc for SimSolverProc {
         Ok(ok)
     }
 }
+
+// -------------------------------------------------------------------------------------------------
+// A scripted solver: answers response-bearing commands from a list of canned replies.
+// Used where the reply text itself is the workload (C14).
+// -------------------------------------------------------------------------------------------------
+
+pub struct CannedState {
+    pub replies: VecDeque<String>,
+    stdout_q: VecDeque<u8>,
+    inbuf: Vec<u8>,
+    rng: Rng,
+    pub benign: bool,
+    alive: bool,
+    /// the process exits right after its last canned reply (truncated reply + exit)
+    pub die_when_empty: bool,
+    eof_reads: u32,
+    pub commands: Vec<String>,
+    pub events: u64,
+    pub poisoned: bool,
+}
+
+pub type CannedRef = Rc<RefCell<CannedState>>;
+
+pub fn canned_world(seed: u64, replies: Vec<String>, benign: bool, die_when_empty: bool) -> CannedRef {
+    Rc::new(RefCell::new(CannedState {
+        replies: replies.into(),
+        stdout_q: VecDeque::new(),
+        inbuf: vec![],
+        rng: Rng::stream(seed, "transport"),
+        benign,
+        alive: true,
+        die_when_empty,
+        eof_reads: 0,
+        commands: vec![],
+        events: 0,
+        poisoned: false,
+    }))
+}
+
+pub struct CannedProc {
+    st: CannedRef,
+}
+
+pub fn make_canned_spawner(st: CannedRef) -> patronus::smt::verif_seam::Spawner {
+    Box::new(move |_program: &str, _args: &[String]| {
+        Ok(Box::new(CannedProc { st: st.clone() }) as Box<dyn SimProc>)
+    })
+}
+
+impl CannedState {
+    fn dead(&self) -> bool {
+        self.poisoned || crate::harness::PANICKED.with(|p| p.get())
+    }
+    fn abort(&mut self, a: SimAbort) -> ! {
+        self.poisoned = true;
+        std::panic::panic_any(a)
+    }
+    fn process(&mut self) {
+        while let Some(nl) = self.inbuf.iter().position(|c| *c == b'\n') {
+            let line: Vec<u8> = self.inbuf.drain(..=nl).collect();
+            let line = String::from_utf8_lossy(&line).trim().to_string();
+            if line.is_empty() || !self.alive {
+                continue;
+            }
+            self.commands.push(line.clone());
+            if line.starts_with("(exit") {
+                self.alive = false;
+            } else if line.starts_with("(get-value")
+                || line.starts_with("(check-sat")
+                || line.starts_with("(get-unsat-assumptions")
+            {
+                if let Some(r) = self.replies.pop_front() {
+                    self.stdout_q.extend(r.as_bytes());
+                }
+                if self.replies.is_empty() && self.die_when_empty {
+                    self.alive = false;
+                }
+            }
+        }
+    }
+}
+
+impl SimProc for CannedProc {
+    fn stdin_write(&mut self, buf: &[u8]) -> io::Result<usize> {
+        let mut s = self.st.borrow_mut();
+        if s.dead() || !s.alive {
+            return Err(io::Error::new(io::ErrorKind::BrokenPipe, "broken pipe"));
+        }
+        s.events += 1;
+        let mut n = buf.len();
+        if s.benign && n > 0 {
+            match s.rng.below(10) {
+                0 => return Err(io::Error::new(io::ErrorKind::Interrupted, "EINTR")),
+                1 => n = 1,
+                2 => n = 1 + s.rng.usize_below(buf.len()),
+                _ => {}
+            }
+        }
+        s.inbuf.extend_from_slice(&buf[..n]);
+        s.process();
+        Ok(n)
+    }
+    fn stdin_flush(&mut self) -> io::Result<()> {
+        Ok(())
+    }
+    fn stdin_close(&mut self) {
+        if let Ok(mut s) = self.st.try_borrow_mut() {
+            s.alive = false;
+        }
+    }
+    fn stdout_read(&mut self, buf: &mut [u8]) -> io::Result<usize> {
+        let mut s = self.st.borrow_mut();
+        if s.dead() {
+            return Err(io::Error::other("poisoned"));
+        }
+        s.events += 1;
+        if buf.is_empty() {
+            return Ok(0);
+        }
+        if s.stdout_q.is_empty() {
+            if s.alive {
+                s.abort(SimAbort::Deadlock(
+                    "client reads the solver's stdout, but the solver (alive) owes no response".into(),
+                ));
+            }
+            s.eof_reads += 1;
+            if s.eof_reads > 64 {
+                s.abort(SimAbort::Livelock(
+                    "more than 64 consecutive reads at end-of-file on the solver's stdout".into(),
+                ));
+            }
+            return Ok(0);
+        }
+        s.eof_reads = 0;
+        let avail = s.stdout_q.len().min(buf.len());
+        let mut n = avail;
+        if s.benign {
+            match s.rng.below(10) {
+                0 => return Err(io::Error::new(io::ErrorKind::Interrupted, "EINTR")),
+                1 => n = 1,
+                2 | 3 => n = 1 + s.rng.usize_below(avail.min(16)),
+                _ => {}
+            }
+        }
+        for slot in buf.iter_mut().take(n) {
+            *slot = s.stdout_q.pop_front().unwrap();
+        }
+        Ok(n)
+    }
+    fn stderr_read(&mut self, _buf: &mut [u8]) -> io::Result<usize> {
+        Ok(0)
+    }
+    fn try_wait(&mut self) -> io::Result<Option<bool>> {
+        let s = self.st.borrow();
+        if s.dead() {
+            return Ok(Some(false));
+        }
+        Ok(if s.alive { None } else { Some(true) })
+    }
+    fn wait(&mut self) -> io::Result<bool> {
+        let mut s = self.st.borrow_mut();
+        if s.dead() {
+            return Ok(false);
+        }
+        if s.alive {
+            s.abort(SimAbort::Deadlock(
+                "client waits for a solver process that was never told to exit".into(),
+            ));
+        }
+        Ok(true)
+    }
+}
